@@ -145,7 +145,7 @@ impl Rec {
     pub fn call(&mut self, lib: &dyn Lib, g: Grp, op: Op, args: &[&[u8]]) -> Out {
         beat();
         self.stats.lib_calls += 1;
-        let out = lib.call(g, op, args);
+        let out = crate::exec::call(lib, g, op, args, 0);
         match &out {
             Out::Ok(v) => {
                 for p in v {
@@ -171,7 +171,7 @@ impl Rec {
             if lib.name() == tw.primary {
                 beat();
                 self.stats.lib_calls += 1;
-                let other = tw.lib.call(g, op, args);
+                let other = crate::exec::call(tw.lib, g, op, args, 1);
                 if !(tw.exclude)(op, args, &out, &other) {
                     self.twin_compared += 1;
                     self.evals += 1;
